@@ -193,7 +193,11 @@ func (conv *converter) convertRuleGroup(decl *ast.FuncDecl) *ir.RuleGroup {
 	conv.groupFuncs = conv.groupFuncs[:0]
 
 	result.Name = decl.Name.String()
-	result.MatcherName = decl.Type.Params.List[0].Names[0].String()
+	matcherParam := decl.Type.Params.List[0]
+	if len(matcherParam.Names) == 0 {
+		panic(conv.errorf(matcherParam, "%s: the dsl.Matcher parameter should have a name", result.Name))
+	}
+	result.MatcherName = matcherParam.Names[0].String()
 
 	if decl.Doc != nil {
 		conv.convertDocComments(decl.Doc)
